@@ -133,4 +133,25 @@ Section WithParser.
             else mk_xres (OResp (rh_status h) None) FClosed segs'
         end
     end.
+
+  (* [exchange] with the connection type of the REQUEST head as an input (force_close,
+     HTTP/1.0: Close): `encode` installs it, `decode` takes only a downgrade from the peer.
+     [exchange] = [exchange_ct CKeepAlive] (Client/ReqConn.v, by computation) *)
+  Definition exchange_ct (req_conn : ctype) (is_head read_all : bool) (segs : list bytes) (closed : bool) : xres :=
+    let c0 := codec_after_encode is_head req_conn in
+    match read_head (length (concat segs)) c0 framed0 segs closed with
+    | HErr e => mk_xres (OSendErr e) FClosed []
+    | HHead h c f segs' =>
+        match message_type c with
+        | MTNone =>
+            mk_xres (OResp (rh_status h) (if read_all then Some (BOk []) else None))
+                    (if keep_alive c then FReleased else FClosed) segs'
+        | _ =>
+            if read_all then
+              let '(b, ft, rest) := read_body (body_fuel f segs') c f segs' closed [] in
+              mk_xres (OResp (rh_status h) (Some b)) ft rest
+            else mk_xres (OResp (rh_status h) None) FClosed segs'
+        end
+    end.
+
 End WithParser.
